@@ -314,7 +314,9 @@ Record part := mkPart {
   line_offset : nat;
   orig_lines : list str;
   p_directives : list directive;
-  compile_mode : cmode
+  compile_mode : cmode;
+  p_dirs_raise : bool             (* the directives are extracted lazily (part without a PS1 statement)
+                                     and that extraction raises: seen only when the part is run *)
 }.
 
 Inductive item := IText (t : str) | IPart (p : part).
@@ -451,12 +453,17 @@ Definition slice_example (exec_all src_all : list str) (tab : list (nat * list d
            (o : oracles) (lineno s1 : nat) (s2 : option nat) (want : list str) (mode : cmode)
   : res part :=
   let ex := slice_to s1 s2 exec_all in
-  (* directives=None means "extract lazily from the part's own source" *)
-  do ds <- match lookup_nat s1 tab with
-           | Some ds => Ok ds
-           | None => o_dirs o ex
-           end;
-  Ok (mkPart ex want (lineno + s1) (slice_to s1 s2 src_all) ds mode).
+  (* directives=None means "extract lazily from the part's own source": an exception of that
+     extraction is not raised while parsing but when part.directives is first read *)
+  match lookup_nat s1 tab with
+  | Some ds => Ok (mkPart ex want (lineno + s1) (slice_to s1 s2 src_all) ds mode false)
+  | None =>
+      match o_dirs o ex with
+      | Ok ds => Ok (mkPart ex want (lineno + s1) (slice_to s1 s2 src_all) ds mode false)
+      | Err (E_Need q) => Err (E_Need q)
+      | Err _ => Ok (mkPart ex want (lineno + s1) (slice_to s1 s2 src_all) [] mode true)
+      end
+  end.
 
 (* zip(break_linenos, break_linenos[1:]) *)
 Fixpoint consecutive_pairs (l : list nat) : list (nat * nat) :=
